@@ -289,7 +289,7 @@ enum Item {
 pub fn run_c17(mut rep: Report) -> i32 {
     let thorough = rep.thorough();
     let max_len = if thorough { 6 } else { 4 };
-    rep.rule = format!("every sequence of length <= {max_len} over {{valid, bad-signature, undecodable}} is placed on the channel of a real EphemeralStreamSubscription (and, separately, sequences long enough to overflow a lagging receiver), then the subscription is driven by wake-ups alone (counting waker, a poll happens only after a wake): every valid message must be yielded; a Pending without a wake-up while valid messages are queued is a stall; non-trivial = sequence with a valid message preceded by an invalid one");
+    rep.rule = format!("every sequence of length <= {max_len} over {{valid, bad-signature, undecodable}} is placed on the channel of a real EphemeralStreamSubscription (and, separately, sequences long enough to overflow a lagging receiver, and every run of 1..=127 invalid items followed by a valid one), then the subscription is driven by wake-ups alone (counting waker, a poll happens only after a wake): every valid message must be yielded; a Pending without a wake-up while valid messages are queued is a stall; non-trivial = sequence with a valid message preceded by an invalid one");
     let rig = match rig() {
         Ok(r) => r,
         Err(e) => {
@@ -364,6 +364,41 @@ pub fn run_c17(mut rep: Report) -> i32 {
                 rep.violation(
                     "stall/lagged-receiver-does-not-recover",
                     format!("{over} items (cycle {cycle:?}) sent before the first poll: the subscription yielded {} messages after {polls} poll(s) and parked; {} valid messages are retained by the channel", got_bodies.len(), retained_valid.len()),
+                    replay,
+                );
+            }
+        }
+    }
+    // Runs: n invalid items followed by one valid message, for every n the channel can hold
+    // (1..=127) and every kind of invalid item (and both alternating): skipping must not depend on
+    // how many items are skipped within one poll.
+    for kind in 0..3usize {
+        for n in 1..=127usize {
+            let seq: Vec<Item> = (0..n)
+                .map(|i| match kind {
+                    0 => Item::BadSignature,
+                    1 => Item::Undecodable,
+                    _ => [Item::BadSignature, Item::Undecodable][i % 2],
+                })
+                .chain(std::iter::once(Item::Valid))
+                .collect();
+            rep.eval();
+            rep.state(&("run", kind, n));
+            let items: Vec<Vec<u8>> = seq.iter().enumerate().map(|(i, it)| mk(*it, i)).collect();
+            let (sub, tx) = rig.subscription();
+            let (got, polls, spun) = feed_and_drain(sub, &tx, &items);
+            rep.transitions += polls;
+            let got_bodies: Vec<String> = got.iter().map(|g| g.2.clone()).collect();
+            rep.nontrivial(&("run", kind, n));
+            rep.outcome(&("run", got_bodies.len()));
+            let kind_name = ["bad-signature", "undecodable", "alternating"][kind];
+            let replay = json!({"part": "runs", "invalid_kind": kind_name, "run_length": n});
+            if spun {
+                rep.violation("subscription-spins", format!("{n} invalid items then a valid one"), replay);
+            } else if got_bodies != vec![format!("m{n}")] {
+                rep.violation(
+                    "stall/valid-message-behind-long-run-of-invalid-not-yielded",
+                    format!("channel holds {n} invalid items ({}) followed by one valid message: driven by wake-ups alone the subscription yielded {got_bodies:?} after {polls} poll(s) and parked", ["bad signature", "undecodable", "alternating"][kind]),
                     replay,
                 );
             }
